@@ -13,7 +13,8 @@ from ..core import MachineryError
 def repo_tests_leg(ctx, constants):
     out = os.path.join(ctx.work, 'repo-test-traces.json')
     tests = os.path.join(core.REPO, 'emd', 'tests')
-    env = dict(os.environ, EMD_TRACE_OUT=out, PYTHONPATH=core.VERIF + os.pathsep + os.environ.get('PYTHONPATH', ''))
+    # (TMPDIR: the repository's logger test writes temporary log files - they belong in the per-run work directory)
+    env = dict(os.environ, EMD_TRACE_OUT=out, TMPDIR=ctx.work, PYTHONPATH=core.VERIF + os.pathsep + os.environ.get('PYTHONPATH', ''))
     p = subprocess.run(['/venv/bin/python', '-m', 'pytest', '-q', '-p', 'no:cacheprovider', '-p', 'harness.mbv.pytest_trace', tests],
                        cwd=ctx.work, env=env, stdout=subprocess.PIPE, stderr=subprocess.STDOUT, text=True, timeout=1800)
     if not os.path.exists(out):
